@@ -374,6 +374,12 @@ def r3b_constant_subscripts(ctx, chk, rule="C06.3b"):
                 # and init_states compares the number of nodes built with num_states)
                 chk.ok(rule, where, "`%s[%d]`: initial-state convention; an empty state list cannot reach the solver (check_game/init_states dominate, C09.4)" % (text, node.slice.value))
             elif isinstance(base, ast.ListComp) or (isinstance(base, ast.Name) and _single_def_listcomp(ctx, f, node, base.id) is not None):
+                comp0 = base if isinstance(base, ast.ListComp) else _single_def_listcomp(ctx, f, node, base.id)
+                if len(comp0.generators) == 1 and not comp0.generators[0].ifs and attr_path(comp0.generators[0].iter) == "self.next_states" \
+                        and _dominated_by_nonempty_test(ctx, f, node, "self.next_states"):
+                    # one entry per transition, nothing filtered: empty exactly when the successor list is
+                    chk.ok(rule, where, "`%s[%d]`: one entry per element of self.next_states (no filter), and the subscript is dominated by a non-emptiness test of self.next_states" % (text, node.slice.value))
+                    continue
                 ok = _filter_nonempty_argument(ctx, f, node)
                 if ok:
                     chk.ok(rule, where, "`%s[0]`: %s" % (text, ok))
@@ -561,6 +567,19 @@ def r3e_builtin_on_empty(ctx, chk, rule="C06.3e"):
                                       "'ValueError: %s() iterable argument is empty' (reported as an unsolvable game)" % (cls, meth, t[1], t[1]),
                                       expected="a non-emptiness test or default=", found=show(t)[:120], construct="%s.%s %s() on possibly empty successors" % (cls, meth, t[1]))
     chk.extra["builtin_extrema_post_pruning"] = n
+    # the reachability sweep over the states that can reach a final state: that list is EMPTY when no non-final state reaches one
+    # (a game whose initial state is cut off), so an extremum over it needs a default
+    vir = ctx.prog.funcs.get("tad.py::Solver.value_iteration_reachability")
+    if vir is not None and len(vir.params) > 1:
+        dom = vir.params[1]
+        for c in walk_no_nested_defs(vir.node):
+            if isinstance(c, ast.Call) and call_name(c) in ("max", "min") and len(c.args) == 1 and isinstance(c.args[0], (ast.GeneratorExp, ast.ListComp)) \
+                    and not any(k.arg == "default" for k in c.keywords):
+                it = c.args[0].generators[0].iter
+                if isinstance(it, ast.Name) and it.id == dom:
+                    chk.violation(rule, vir.where(c), "`%s` has no default: when no state outside the final ones can reach a final state the swept list `%s` is empty and solve() fails with a stray "
+                                  "'ValueError: %s() iterable argument is empty' instead of the result / the 'no solution' error" % (src(c)[:70], dom, call_name(c)),
+                                  expected="default=0 (or a loop that starts from 0)", found=src(c)[:100], construct="value_iteration_reachability %s() over an empty sweep" % call_name(c))
 
 
 def _ret_guarded_nonempty(k, call_t):
@@ -777,6 +796,9 @@ def run(ctx, chk):
     r4_fixpoint_loops(ctx, chk)
     shared.rule_no_recursion(ctx, chk, "C06.3d", [ctx.func("tad.py::StochasticGame.solve")], "solve()")
     C03.r1(ctx, chk, "C06.pre:C03.1")
+    # (the property's own mechanism: "dead branches must be gone so that no rewarded cycle survives" - and a removal that works
+    # from a stale snapshot of the list raises `x not in list` out of solve())
+    C03.r23(ctx, chk, "C06.pre:C03.2", "C06.pre:C03.3")
     C07.r1_no_recursion(ctx, chk, "C06.pre:C07.1")
     # 'no solution' is raised exactly when R[0] == 0 only if the reachability domain is complete (C01 prerequisites)
     C07.r2_roots(ctx, chk, "C06.pre:C07.2")
